@@ -79,6 +79,12 @@ pub fn gen_c09(r: &mut Rng, out: &mut dyn Write) {
         }
     }
     writeln!(out, "wrap_a {} {}", name, e2s(e)).unwrap();
+    // the Gregorian tuples and text in another scale than the epoch's own
+    match r.below(3) {
+        0 => writeln!(out, "wrap_a to_greg_tai {}", e2s(e)).unwrap(),
+        1 => writeln!(out, "wrap_a to_greg_utc {}", e2s(e)).unwrap(),
+        _ => writeln!(out, "wrap_a to_greg_str {} {}", e2s(e), tgt).unwrap(),
+    }
 }
 
 pub fn gen_c17(r: &mut Rng, out: &mut dyn Write) {
@@ -177,6 +183,20 @@ pub fn exec(op: &str, a: &[&str]) -> Option<String> {
                     };
                     // ... which is also what Display prints for the re-expressed epoch
                     Some(format!("ok t {} {} {}", crate::codec::str2hex(&w), crate::codec::str2hex(&r), crate::codec::str2hex(&format!("{}", c))))
+                }
+                // the Gregorian tuples / text in a scale OTHER than the one the epoch is held in
+                "to_greg_tai" | "to_greg_utc" => {
+                    let ts = if a[0] == "to_greg_tai" { TimeScale::TAI } else { TimeScale::UTC };
+                    let c = e.to_time_scale(ts);
+                    let (w, r) = if a[0] == "to_greg_tai" { (e.to_gregorian_tai(), c.to_gregorian_tai()) } else { (e.to_gregorian_utc(), c.to_gregorian_utc()) };
+                    let (w, r) = (crate::codec::str2hex(&format!("{:?}", w)), crate::codec::str2hex(&format!("{:?}", r)));
+                    Some(format!("ok t {} {} {}", w, r, r))
+                }
+                "to_greg_str" => {
+                    let ts = s2ts(a[2]);
+                    let c = e.to_time_scale(ts);
+                    let r = crate::codec::str2hex(&c.to_gregorian_str(ts));
+                    Some(format!("ok t {} {} {}", crate::codec::str2hex(&e.to_gregorian_str(ts)), r, crate::codec::str2hex(&format!("{}", c))))
                 }
                 "to_mjd_tai_d" => f(e.to_mjd_tai(Unit::Day), e.to_mjd_tai_days()),
                 "to_mjd_tai_s" => f(e.to_mjd_tai(Unit::Second), e.to_mjd_tai_seconds()),
